@@ -251,10 +251,10 @@ def capa_default_scale_stream(ctx):
     from skchange.anomaly_scores import L2Saving as _L2S
     rng = ctx.rng
     for it in range(ctx.n(2, 10)):
-        n, p = (rng.randint(150, 320) if it else rng.randint(540, 620)), rng.choice([1, 3])
+        n, p = (rng.randint(190, 320) if it else rng.randint(540, 620)), rng.choice([1, 3])
         multi = it % 2 == 1
         X = np.asarray([[rng.gauss(0, 1) for _ in range(p)] for _ in range(n)])
-        a = rng.randint(20, n - 150)
+        a = rng.randint(20, max(21, n - 160))
         a = a | 1                                  # an ODD start
         X[a:a + (rng.randint(10, 50) if it % 2 else rng.randint(80, 140)), : rng.randint(1, p)] += rng.choice([3.0, -4.0])      # also anomalies longer than 64 samples
         X[rng.randrange(n), rng.randrange(p)] += rng.choice([9.0, -11.0])
